@@ -310,3 +310,250 @@ Print Assumptions C12_encoded_info_prefix_template.
 Example C12_real_truncation_nonvacuous :
   ex_real_check (exu_json false ex_data) = true /\ ex_real_check (exu_json true ex_data_c) = true.
 Proof. exact real_truncation_nonvacuous. Qed.
+
+(* ======================================================================== *)
+(* END TO END: damage and the CONCRETE scanner (StreamFrame.v, see C11.v)     *)
+(* ======================================================================== *)
+From PBK Require Import StreamFrame StreamFrameProofs StreamFrameDamage StreamFrameOverrun StreamFrameRefused
+  StreamFrameDamageStream StreamFrameTemplate.
+
+(* the section loop of a full decode splits where section 5 begins: all that
+   comes before is a function of the bits e consumed by sections 0..4 alone —
+   whatever REPLACES the rest of the stream is handed to section 5 *)
+Theorem C12_decode_sections_upto5 :
+  forall (dd : list (pname * pvalue) -> reader -> result (bits * reader)),
+  (forall p r b r', dd p r = Ok (b, r') -> r = b ++ r') ->
+  (forall p r b r' s, dd p r = Ok (b, r') -> dd p (r ++ s) = Ok (b, r' ++ s)) ->
+  (forall p, cuts (dd p)) ->
+  forall idxs props secs R secs' props' r',
+  decode_sections dd definitions false false idxs props secs R = Ok (secs', props', r') ->
+  exists e pre props5 r5,
+    R = e ++ r5 /\
+    forall x, decode_sections dd definitions false false idxs props secs (e ++ x) =
+              let* (sec, p1, r1) := decode_section dd section5 props5 x in Ok (pre ++ [sec], p1, r1).
+Proof. exact decode_sections_upto5. Qed.
+Print Assumptions C12_decode_sections_upto5.
+
+(* DAMAGE 1, message level: an encoded message (hypotheses of
+   C04_frame_roundtrip) whose last four octets are replaced by any four octets
+   other than '7777', followed by ANY bytes: the full decode (as the scanner calls
+   it: no signature search, value expectations on) fails with the library's own
+   error PyBufrKitError — not with an AssertionError (repair b8d3cfd), not by
+   reading on into what follows *)
+Theorem C12_damaged_stop_signature_fails :
+  forall (dd : list (pname * pvalue) -> reader -> result (bits * reader)),
+  (forall p r b r', dd p r = Ok (b, r') -> r = b ++ r') ->
+  (forall p r b r' s, dd p r = Ok (b, r') -> dd p (r ++ s) = Ok (b, r' ++ s)) ->
+  (forall p, cuts (dd p)) ->
+  forall ign json m (x4 : list byte) t,
+  encode_message ign json = Ok m ->
+  Forall sec_fits (m_sections m) -> Forall desc_fill_ok (m_sections m) -> data_ok dd [] (m_sections m) ->
+  length x4 = 4%nat -> forallb is_byte x4 = true -> bytes_eqb x4 sig_7777 = false ->
+  decode_message dd None false false (firstn (length (m_bytes m) - 4) (m_bytes m) ++ x4 ++ t) = Err ELib.
+Proof. exact damaged_stop_signature_fails. Qed.
+Print Assumptions C12_damaged_stop_signature_fails.
+
+Theorem C12_ELib_is_library_error : is_lib_err ELib = true.
+Proof. reflexivity. Qed.
+Print Assumptions C12_ELib_is_library_error.
+
+(* DAMAGE 2, message level: a declared section length DECREASED.  For an encoded
+   message the last two sections are 4 and 5 and section 4 carries (declared
+   length sl, reserved bits, data).  dmg_len4 b sl v = b with the three octets
+   at |b| - 4 - sl (the length field of section 4) overwritten by v.  If 8 v bits
+   cannot hold the section's content (32 + |data| bits), the full decode of the
+   damaged message followed by ANY bytes is the library's overrun error
+   (C04 decode_overrun_error) — it neither succeeds nor reads on; if moreover
+   4 <= v <= sl the metadata-only decode still succeeds, with one and the same
+   result whatever follows, and reports the intact total length *)
+Theorem C12_damaged_section4_length :
+  forall (dd : list (pname * pvalue) -> reader -> result (bits * reader)),
+  (forall p r b r', dd p r = Ok (b, r') -> r = b ++ r') ->
+  (forall p r b r' s, dd p r = Ok (b, r') -> dd p (r ++ s) = Ok (b, r' ++ s)) ->
+  (forall p, cuts (dd p)) ->
+  forall ign json m,
+  encode_message ign json = Ok m ->
+  Forall sec_fits (m_sections m) -> Forall desc_fill_ok (m_sections m) -> data_ok dd [] (m_sections m) ->
+  exists pre s4 s5 sl rb data,
+    m_sections m = pre ++ [s4; s5] /\
+    sec_values s4 = [(Nsection_length, PUint sl); (Nreserved_bits, rb); (Ntemplate_data, PData data)] /\
+    (0 <= sl)%Z /\ (Z.to_nat sl + 8 <= length (m_bytes m))%nat /\
+    forall v, (0 <= v < 2 ^ 24)%Z -> (8 * v < 32 + Z.of_nat (length data))%Z ->
+      length (dmg_len4 (m_bytes m) sl v) = length (m_bytes m) /\ starts_sig (dmg_len4 (m_bytes m) sl v) /\
+      (forall t, decode_message dd None false false (dmg_len4 (m_bytes m) sl v ++ t) = Err ELib) /\
+      ((4 <= v <= sl)%Z ->
+         exists mi, (forall t, decode_message dd None true false (dmg_len4 (m_bytes m) sl v ++ t) = Ok mi) /\
+                    prop_get Nlength (m_props mi) = Some (PUint (Z.of_nat (length (m_bytes m))))).
+Proof. exact damaged_section4_length. Qed.
+Print Assumptions C12_damaged_section4_length.
+
+(* DAMAGE 3, message level: the descriptor list of section 3 damaged so that the
+   template decoder refuses it whatever the data bits are (an undefined
+   descriptor).  Such a message is itself an encoder output — same framing, same
+   lengths: msg_wfb with the yardstick decoder [take_dd nd] says that its section
+   4 holds nd data bits — on which the template decoder, called with the
+   attributes of sections 0..3 [props4_of m], fails.  NOTHING is assumed of dd:
+   the full decode fails with that very error whatever follows; the metadata-only
+   decode (it never calls the template decoder) is intact *)
+Theorem C12_e2e_refused_hyps :
+  forall (dd : list (pname * pvalue) -> reader -> result (bits * reader)) view ign json m sl nd e,
+  encode_message ign json = Ok m ->
+  sec4_info m = Some (sl, nd) -> msg_wfb (take_dd nd) m = true ->
+  (forall r, dd (props4_of m) r = Err e) ->
+  starts_sig (m_bytes m) /\
+  full_fails (frame_process dd view false) (m_bytes m) e /\
+  info_ok (frame_process dd view true) (m_bytes m).
+Proof. exact refused_hyps. Qed.
+Print Assumptions C12_e2e_refused_hyps.
+
+(* executable tests for "refused whatever the data", proved sound: for the real
+   template decoders [template_refusesb]: the expanded template begins with an
+   undefined element or sequence descriptor (and there is a subset to decode);
+   for the stub of the correspondence runs: any descriptor other than 031031 *)
+Theorem C12_template_refusesb_sound : forall T_of n_of c_of props,
+  template_refusesb T_of n_of c_of props = true ->
+  forall r, dd_template T_of n_of c_of props r = Err EUnknownDescriptor.
+Proof. exact template_refusesb_sound. Qed.
+Print Assumptions C12_template_refusesb_sound.
+
+Theorem C12_stub_refusesb_sound : forall props, stub_refusesb props = true ->
+  forall r, stub_dd props r = Err EUnknownDescriptor.
+Proof. exact stub_refusesb_sound. Qed.
+Print Assumptions C12_stub_refusesb_sound.
+
+(* what the scanner theorems ask of a damaged message, all of it, with the real
+   template decoders and executable conditions only.
+     damage = DStop x4 (last four octets := x4) | DLen4 v (length field of section 4 := v)
+              | DRefused (the item is a message with a refused descriptor list)
+     damage_okb m (DStop x4) = x4 is four octets, not '7777'
+     damage_okb m (DLen4 v)  = 4 <= v <= sl, v < 2^24, 8 v < 32 + |data|, where
+                               sec4_info m = Some (sl, |data|) is read off the
+                               second-to-last section of the encoded message
+     damage_err d            = EUnknownDescriptor for DRefused, ELib otherwise
+   The damaged message still starts with 'BUFR' and has the same length; its full
+   decode fails with the library error whatever follows [full_fails]; its
+   metadata-only decode succeeds whatever follows with the declared length intact [info_ok] *)
+Theorem C12_e2e_damaged_hyps_template : forall T_of n_of c_of view ign json m d,
+  encode_message ign json = Ok m -> msg_wfb (dd_template T_of n_of c_of) m = true -> damage_okb m d = true ->
+  starts_sig (damage_bytes m d) /\ length (damage_bytes m d) = length (m_bytes m) /\
+  full_fails (frame_process (dd_template T_of n_of c_of) view false) (damage_bytes m d) (damage_err d) /\
+  info_ok (frame_process (dd_template T_of n_of c_of) view true) (damage_bytes m d).
+Proof. exact damaged_hyps_template. Qed.
+Print Assumptions C12_e2e_damaged_hyps_template.
+
+Theorem C12_e2e_refused_item_hyps_template : forall T_of n_of c_of view ign json m,
+  encode_message ign json = Ok m -> refused_okb (template_refusesb T_of n_of c_of) m = true ->
+  starts_sig (m_bytes m) /\
+  full_fails (frame_process (dd_template T_of n_of c_of) view false) (m_bytes m) EUnknownDescriptor /\
+  info_ok (frame_process (dd_template T_of n_of c_of) view true) (m_bytes m).
+Proof. exact refused_item_hyps_template. Qed.
+Print Assumptions C12_e2e_refused_item_hyps_template.
+
+(* isolation, end to end.  A stream of items, each undamaged (as in C11) or
+   damaged in one of the three ways (dmg_okb: a damaged one need not be quiet).
+   With continue_on_error the concrete scanner delivers exactly the undamaged
+   messages, unchanged and in order, and ends normally — any number of damaged
+   messages anywhere, adjacent ones included.  [refusesb]: any sound test for
+   "the template decoder refuses these attributes whatever the data". *)
+Theorem C12_e2e_continue_skips_damaged :
+  forall (dd : list (pname * pvalue) -> reader -> result (bits * reader)),
+  (forall p r b r', dd p r = Ok (b, r') -> r = b ++ r') ->
+  (forall p r b r' s, dd p r = Ok (b, r') -> dd p (r ++ s) = Ok (b, r' ++ s)) ->
+  (forall p, cuts (dd p)) ->
+  forall refusesb : list (pname * pvalue) -> bool,
+  (forall props, refusesb props = true -> forall r, dd props r = Err EUnknownDescriptor) ->
+  forall view tdp filt sep0 items,
+  nosigb sep0 = true -> forallb (dmg_okb dd refusesb false) items = true ->
+  frame_generate dd view tdp filt false true false (sep0 ++ assemble (dmg_stream items))
+  = (map dmg_bytes (filter undamaged items), None).
+Proof. exact e2e_continue_skips_damaged. Qed.
+Print Assumptions C12_e2e_continue_skips_damaged.
+
+Theorem C12_e2e_continue_skips_damaged_template : forall T_of n_of c_of view tdp filt sep0 items,
+  nosigb sep0 = true ->
+  forallb (dmg_okb (dd_template T_of n_of c_of) (template_refusesb T_of n_of c_of) false) items = true ->
+  frame_generate (dd_template T_of n_of c_of) view tdp filt false true false (sep0 ++ assemble (dmg_stream items))
+  = (map dmg_bytes (filter undamaged items), None).
+Proof. exact e2e_continue_skips_damaged_template. Qed.
+Print Assumptions C12_e2e_continue_skips_damaged_template.
+
+Theorem C12_e2e_continue_skips_damaged_stub : forall view tdp filt sep0 items,
+  nosigb sep0 = true -> forallb (dmg_okb stub_dd stub_refusesb false) items = true ->
+  frame_generate stub_dd view tdp filt false true false (sep0 ++ assemble (dmg_stream items))
+  = (map dmg_bytes (filter undamaged items), None).
+Proof. exact e2e_continue_skips_damaged_stub. Qed.
+Print Assumptions C12_e2e_continue_skips_damaged_stub.
+
+(* without continue_on_error: the messages before the damaged one are delivered,
+   then the library's error surfaces (PyBufrKitError, resp. UnknownDescriptor);
+   nothing is assumed about what follows *)
+Theorem C12_e2e_stops_at_damaged_template : forall T_of n_of c_of view tdp filt sep0 items it d rest,
+  nosigb sep0 = true -> forallb (item_okb (dd_template T_of n_of c_of) false) items = true ->
+  dmg_okb (dd_template T_of n_of c_of) (template_refusesb T_of n_of c_of) false (it, Some d) = true ->
+  frame_generate (dd_template T_of n_of c_of) view tdp filt false false false
+    (sep0 ++ assemble (stream_of items) ++ dmg_bytes (it, Some d) ++ rest)
+  = (map item_bytes items, Some (damage_err d)).
+Proof. exact e2e_stops_at_damaged_template. Qed.
+Print Assumptions C12_e2e_stops_at_damaged_template.
+
+(* recorded (not a defect of the model: the implementation behaves so):
+   metadata-only mode reads neither section 5 nor the content of section 4 and
+   never calls the template decoder, so none of the three damages is detected
+   there — the damaged messages are delivered like the others (cut by the intact
+   total length) *)
+Theorem C12_e2e_info_mode_delivers_damaged_template : forall T_of n_of c_of view tdp filt coe sep0 items,
+  nosigb sep0 = true ->
+  forallb (dmg_okb (dd_template T_of n_of c_of) (template_refusesb T_of n_of c_of) true) items = true ->
+  frame_generate (dd_template T_of n_of c_of) view tdp filt true coe false (sep0 ++ assemble (dmg_stream items))
+  = (map dmg_bytes items, None).
+Proof. exact e2e_info_mode_delivers_damaged_template. Qed.
+Print Assumptions C12_e2e_info_mode_delivers_damaged_template.
+
+(* non-vacuity, computed: eight messages; #2 (a table-definition message) with
+   '7778' and #4 with NULs in place of '7777'; #5 and #6 with the length of
+   section 4 (16 octets) set to 8 resp. 15; #7 with the undefined 063255 as first
+   descriptor; the hypotheses hold; the concrete scanner RUN on the stream with
+   continue_on_error returns messages 1, 3, 8; without it message 1 and then
+   PyBufrKitError; metadata-only all eight *)
+Example C12_e2e_damage_nonvacuous :
+  forallb (dmg_okb e2e_dd e2e_rfb false) e2e_dmg_items = true /\
+  map undamaged e2e_dmg_items = [true; false; true; false; false; false; false; true] /\
+  map (fun it => match item_msg (fst it) with Ok m => sec4_info m | Err _ => None end) e2e_dmg_items =
+    [Some (16%Z, 96%nat); Some (16%Z, 96%nat); Some (16%Z, 96%nat); Some (14%Z, 80%nat); Some (16%Z, 96%nat);
+     Some (16%Z, 96%nat); Some (16%Z, 96%nat); Some (16%Z, 96%nat)] /\
+  outcome_eqb (frame_generate e2e_dd e2e_view e2e_tdp e2e_filt false true false
+                 (e2e_sep0 ++ assemble (dmg_stream e2e_dmg_items)))
+              (map dmg_bytes (filter undamaged e2e_dmg_items), None) = true /\
+  outcome_eqb (frame_generate e2e_dd e2e_view e2e_tdp e2e_filt false false false
+                 (e2e_sep0 ++ assemble (dmg_stream e2e_dmg_items)))
+              (map dmg_bytes (firstn 1 e2e_dmg_items), Some ELib) = true /\
+  forallb (dmg_okb e2e_dd e2e_rfb true) e2e_dmg_items = true /\
+  outcome_eqb (frame_generate e2e_dd e2e_view e2e_tdp e2e_filt true false false
+                 (e2e_sep0 ++ assemble (dmg_stream e2e_dmg_items)))
+              (map dmg_bytes e2e_dmg_items, None) = true.
+Proof. exact e2e_damage_nonvacuous. Qed.
+
+(* ... and a stream whose first damaged message is the one with the undefined
+   descriptor ends, without continue_on_error, with UnknownDescriptor *)
+Example C12_e2e_refused_nonvacuous :
+  match encode_message true e2e_json_undef with Ok m => refused_okb e2e_rfb m | Err _ => false end = true /\
+  outcome_eqb (frame_generate e2e_dd e2e_view e2e_tdp e2e_filt false false false
+                 (e2e_sep0 ++ assemble (dmg_stream (skipn 6 e2e_dmg_items))))
+              ([], Some EUnknownDescriptor) = true.
+Proof. exact e2e_refused_nonvacuous. Qed.
+
+(* ... and the same with the stub template decoder (the *_stub theorems): six
+   messages of 031031 templates (editions 3, 4, 2), one with NULs for '7777', one
+   with the undefined 063255 as second descriptor, one with the length of section
+   4 (5 octets) set to 4 *)
+Example C12_e2e_stub_nonvacuous :
+  forallb (dmg_okb stub_dd stub_refusesb false) stub_dmg_items = true /\
+  forallb (dmg_okb stub_dd stub_refusesb true) stub_dmg_items = true /\
+  forallb (item_okb stub_dd false) (map fst (filter undamaged stub_dmg_items)) = true /\
+  outcome_eqb (frame_generate stub_dd e2e_view e2e_tdp e2e_filt false true false
+                 (e2e_sep0 ++ assemble (dmg_stream stub_dmg_items)))
+              (map dmg_bytes (filter undamaged stub_dmg_items), None) = true /\
+  outcome_eqb (frame_generate stub_dd e2e_view e2e_tdp e2e_filt false false false
+                 (e2e_sep0 ++ assemble (stream_of (map fst (filter undamaged stub_dmg_items)))))
+              (map item_bytes (map fst (filter undamaged stub_dmg_items)), None) = true.
+Proof. exact e2e_stub_nonvacuous. Qed.
